@@ -233,6 +233,37 @@ def same_geometry_pair(rng, max_bits=50000):
     return None
 
 
+_EDGE = []
+
+
+def f32_edge_requests():
+    """(est_elements, rate as text) whose geometry CHANGES when the rate is not narrowed to single precision first (the documented sizing
+    narrows it, the file footer stores it narrowed): a request given with a full-precision rate - whatever its numeric type - must still get,
+    and keep over every reload, the geometry of the narrowed rate.  Found once per process by comparing the two sizings."""
+    if not _EDGE:
+        import math
+
+        def quick(n, p):
+            m = math.ceil((-n * math.log(p)) / 0.4804530139182)
+            return m, int(round(0.6931471805599453 * m / n))
+
+        for text in ("0.001", "0.05", "0.01", "0.3", "0.0001"):
+            rate = float(text)
+            for n in list(range(3000, 14000)) + list(range(100000, 103000)):
+                if quick(n, refimpl.f32(rate)) != quick(n, rate) and refimpl.bloom_sizing_simple(n, rate):
+                    _EDGE.append((n, text))
+    return _EDGE
+
+
+def spell_rate(rng, text):
+    """the same rate as a float, a decimal.Decimal or a fractions.Fraction (all are numbers.Number instances the constructors accept)"""
+    from decimal import Decimal
+    from fractions import Fraction
+
+    how = rng.choice(["float", "Decimal", "Fraction"])
+    return how, {"float": float(text), "Decimal": Decimal(text), "Fraction": Fraction(text)}[how]
+
+
 _ALIGNED = {}
 
 
